@@ -840,7 +840,8 @@ theorem downloadLayer_no_panic {cfg : Cfg} (hfix : cfg.fixedChallenge = true) (r
     · simp
     · rename_i p' net2 hdir
       exact absurd (congrArg Prod.fst hdir) (directLoop_no_panic hfix _ _ p' _ _ _)
-    · split <;> simp
+    · repeat' split
+      all_goals simp
 
 theorem dlLoop_no_panic {cfg : Cfg} {hash : Bytes → Digest} {reg : Registry} {sc : Scripts}
     (hfix : cfg.fixedChallenge = true) (hempty : cfg.fixedEmpty = true) (p : PanicSite) (ls : List Layer) :
@@ -908,5 +909,49 @@ theorem prunedBlobs_sub (cfg : Cfg) (name : Name) (m : Manifest) (st st2 : Store
   split at h
   · exact h
   · exact removeBlobs_sub _ _ _ x c h
+
+/-! ## resumed records: the plan does not depend on the order `filepath.Glob` returns them in -/
+
+theorem globInsert_perm (x : Nat × Part) (l : List (Nat × Part)) : (globInsert x l).Perm (x :: l) := by
+  induction l with
+  | nil => exact List.Perm.refl _
+  | cons y ys ih =>
+    unfold globInsert
+    split
+    · exact List.Perm.refl _
+    · exact (List.Perm.cons y ih).trans (List.Perm.swap x y ys)
+
+theorem globSort_perm (l : List (Nat × Part)) : (globSort l).Perm l := by
+  induction l with
+  | nil => exact List.Perm.refl _
+  | cons x xs ih =>
+    unfold globSort
+    exact (globInsert_perm x _).trans (List.Perm.cons x ih)
+
+theorem perm_sum_nat {l₁ l₂ : List Nat} (h : l₁.Perm l₂) : l₁.sum = l₂.sum := by
+  induction h with
+  | nil => rfl
+  | cons x _ ih => simp [ih]
+  | swap x y l => simp; omega
+  | trans _ _ ih1 ih2 => exact ih1.trans ih2
+
+theorem indexFrom_map_snd (i : Nat) (ps : List Part) : (indexFrom i ps).map (·.2) = ps := by
+  induction ps generalizing i with
+  | nil => rfl
+  | cons p ps ih => simp [indexFrom, ih]
+
+/-- the records `Prepare` resumes from are the stored records, in some order … -/
+theorem globParts_perm (ps : List Part) : ((globParts ps).map (·.2)).Perm ps := by
+  have h := (globSort_perm (indexFrom 0 ps)).map (·.2)
+  rw [indexFrom_map_snd] at h
+  exact h
+
+/-- … so `b.Total` (the length the `-partial` file is truncated to) is the sum of the record sizes
+    whatever that order is -/
+theorem resume_total_order_independent (ps : List Part) :
+    ((globParts ps).map (·.2.size)).sum = (ps.map (·.size)).sum := by
+  have h := perm_sum_nat ((globParts_perm ps).map (·.size))
+  rw [List.map_map] at h
+  exact h
 
 end OllamaVerif.Pull
